@@ -703,6 +703,7 @@ func (c *Ctx) c18RunsDoNotOverlap() {
 // run — cancelled. Execute therefore waits for the monitoring to be over *after* it released the lock: a deferred call,
 // registered before the deferred Unlock, to a function which loops until the monitoring is off and takes no lock.
 func (c *Ctx) c18MonitoringOverBeforeTheNextRun() {
+	c.rule("M15", "the wait for the monitoring of a run to be over is not bounded by the context of that run (cancelled by the time the wait starts): it reads neither ProcessContext() nor the stored context", 1)
 	c.rule("M12", "Execute, which holds the lock during the run, waits after releasing it for what is left of the run's monitoring (which needs that lock) to be over: the next run cannot overtake it and inherit a cancelled context", 1)
 	ex := c.fn(spPkg, "(*Subprocess).Execute")
 	if ex == nil {
@@ -805,6 +806,7 @@ func (c *Ctx) c18MonitoringOverBeforeTheNextRun() {
 		return
 	}
 	good := false
+	chosen := waitDefer
 	switch {
 	case waitDefer != nil && unlockDefer != nil && dominates(waitDefer, unlockDefer):
 		good = true // deferred calls run in reverse order: the wait runs after the release
@@ -812,6 +814,47 @@ func (c *Ctx) c18MonitoringOverBeforeTheNextRun() {
 		good = true // the release is explicit, the deferred wait runs at the very end
 	case explicitWait != nil && explicitUnlock != nil && dominates(explicitUnlock, explicitWait):
 		good = true
+		chosen = explicitWait
+	}
+	waiters := map[*ssa.Function]bool{}
+	if good && chosen != nil {
+		waiters[staticCallee(callCommon(chosen))] = true
+	}
+	// M15: by the time the wait runs, the run's own context is over (Execute cancels it on its way out, and a run that was
+	// interrupted had it cancelled before): a wait that is bounded by that context — its time limit derived from it, its
+	// sleeps and tests given it — gives up at once, and the next run overtakes the monitoring all the same.
+	for h := range waiters {
+		c.FuncsSeen[fname(h)] = true
+		bad := ""
+		seen := map[*ssa.Function]bool{}
+		var visit func(g *ssa.Function, depth int)
+		visit = func(g *ssa.Function, depth int) {
+			if g == nil || seen[g] || g.Blocks == nil || depth > 2 {
+				return
+			}
+			seen[g] = true
+			allInstrs(g, func(in ssa.Instruction) {
+				if fa, ok := in.(*ssa.FieldAddr); ok {
+					if so := structOf(fa.X.Type()); so != nil && so.Field(fa.Field).Name() == "cancellableCtx" {
+						bad = c.ipos(in)
+					}
+				}
+				if cc := callCommon(in); cc != nil {
+					if k := staticCallee(cc); k != nil && inPkg(spPkg)(k) {
+						if k.Name() == "ProcessContext" {
+							bad = c.ipos(in)
+							return
+						}
+						if k.Name() != "IsOn" {
+							visit(k, depth+1)
+						}
+					}
+				}
+			})
+		}
+		visit(h, 0)
+		c.check(bad == "", "M15", fname(h)+"/not-bounded-by-the-run-that-is-over", c.pos(h.Pos()), "the wait for the monitoring to be over does not read the context of the run",
+			"the wait for the monitoring to be over reads the context of the run ("+bad+"): that context is cancelled by the time the wait runs (Execute cancels it on its way out), so a wait bounded by it gives up at once — the next Execute()/Start() overtakes the goroutine of this run, waits a second in vain and runs its command under the cancelled context: 'cancelled' although nobody interrupted it")
 	}
 	c.check(good, "M12", key, c.ipos(lockCall), "after the lock is released Execute waits for the monitoring of the run to be over",
 		"Execute returns while the goroutine monitoring its run may still be waiting for the lock (a Cancel() in the middle of the run sends it into Stop()): the next Execute()/Start() takes the lock first, waits one second in vain for that goroutine, and runs its command under the cancelled context of the previous run — it reports 'cancelled' although nobody interrupted it")
